@@ -127,7 +127,7 @@ func run(c *harness.Ctx, i int) {
 	var want []treegen.Entry
 	if source == "disk" {
 		if err := treegen.Materialize(root, entries); err != nil {
-			c.Inconclusive("cannot materialize: %v", err)
+			c.Skip("cannot materialize: %v", err)
 			return
 		}
 		if err := desync.Tar(context.Background(), &buf, desync.NewLocalFS(root, desync.LocalFSOptions{})); err != nil {
